@@ -116,10 +116,39 @@ func ruleELIDE(c *Ctx) []Obligation {
 				return true
 			}
 			as, ok := cl.Body[0].(*ast.AssignStmt)
-			if !ok || as.Tok != token.DEFINE || len(as.Lhs) != 1 || len(as.Rhs) != 1 {
-				obs = append(obs, Obligation{Key: funcKey(fn) + " implicit comdat name", Pos: c.pos(cl.Pos()), Verdict: UNDECIDED, Detail: "the comdat case does not begin with `name := <default>`"})
+			var dflt ast.Expr
+			if ok && as.Tok == token.DEFINE && len(as.Lhs) == 1 && len(as.Rhs) == 1 {
+				dflt = as.Rhs[0]
+			}
+			// … := gen.lookupComdat(field, <default>): a helper of the package that starts
+			// from its parameter and overrides it with the written name
+			if ok && len(as.Rhs) == 1 {
+				if call, isCall := unparen(as.Rhs[0]).(*ast.CallExpr); isCall {
+					if callee := calleeOf(info, call); callee != nil && callee.Pkg() != nil && callee.Pkg().Path() == pkgASM {
+						if hfd := c.funcDecl(callee); hfd != nil && hfd.Body != nil && len(hfd.Body.List) > 0 {
+							hi := c.declPkg[hfd].TypesInfo
+							if has, ok := hfd.Body.List[0].(*ast.AssignStmt); ok && has.Tok == token.DEFINE && len(has.Rhs) == 1 {
+								if pid, ok := unparen(has.Rhs[0]).(*ast.Ident); ok {
+									k := 0
+									for _, f := range hfd.Type.Params.List {
+										for _, nm := range f.Names {
+											if hi.Defs[nm] == hi.ObjectOf(pid) && k < len(call.Args) {
+												dflt = call.Args[k]
+											}
+											k++
+										}
+									}
+								}
+							}
+						}
+					}
+				}
+			}
+			if dflt == nil {
+				obs = append(obs, Obligation{Key: funcKey(fn) + " implicit comdat name", Pos: c.pos(cl.Pos()), Verdict: UNDECIDED, Detail: "the comdat case does not begin with `name := <default>` (directly or in a helper that receives the default)"})
 				return true
 			}
+			as = &ast.AssignStmt{Lhs: as.Lhs, TokPos: as.TokPos, Tok: as.Tok, Rhs: []ast.Expr{dflt}}
 			root := rootIdent(as.Rhs[0])
 			if root == nil {
 				return true
@@ -976,67 +1005,107 @@ func ruleENCUNESC(c *Ctx) []Obligation {
 	if fn == nil || sf == nil || len(sf.Params) != 1 {
 		return []Obligation{{Key: "enc.Unescape", Verdict: UNDECIDED, Detail: "function not found"}}
 	}
-	src := sf.Params[0]
-	var isSrcByte func(v ssa.Value, depth int) bool
-	isSrcByte = func(v ssa.Value, depth int) bool {
-		if depth > 6 {
-			return false
-		}
-		switch x := v.(type) {
-		case *ssa.Lookup:
-			return x.X == ssa.Value(src)
-		case *ssa.Index: // string indexing (go/ssa ≥ 0.2x represents s[i] as Index)
-			return x.X == ssa.Value(src)
-		case *ssa.Convert:
-			return isSrcByte(x.X, depth+1)
-		case *ssa.ChangeType:
-			return isSrcByte(x.X, depth+1)
-		case *ssa.Phi:
-			for _, e := range x.Edges {
-				if !isSrcByte(e, depth+1) {
-					return false
-				}
-			}
-			return len(x.Edges) > 0
-		}
-		return false
-	}
 	var obs []Obligation
 	n := 0
-	for _, b := range sf.Blocks {
-		for _, in := range b.Instrs {
-			switch x := in.(type) {
-			case *ssa.BinOp:
-				if x.Op != token.EQL && x.Op != token.NEQ {
+	// (function, parameter that holds source text): Unescape itself, and every function of the
+	// package that is handed the source string or a slice of it (unescapeByte(s[i:]))
+	type item struct {
+		f   *ssa.Function
+		src *ssa.Parameter
+	}
+	work := []item{{sf, sf.Params[0]}}
+	done := map[*ssa.Parameter]bool{}
+	for len(work) > 0 {
+		it := work[0]
+		work = work[1:]
+		if done[it.src] {
+			continue
+		}
+		done[it.src] = true
+		src := it.src
+		isSrcText := func(v ssa.Value) bool {
+			for i := 0; i < 4; i++ {
+				if v == ssa.Value(src) {
+					return true
+				}
+				if sl, ok := v.(*ssa.Slice); ok {
+					v = sl.X
 					continue
 				}
-				var other ssa.Value
-				if k, ok := x.Y.(*ssa.Const); ok && k.Value != nil && k.Value.Kind() == constant.Int && k.Int64() == '\\' {
-					other = x.X
-				} else if k, ok := x.X.(*ssa.Const); ok && k.Value != nil && k.Value.Kind() == constant.Int && k.Int64() == '\\' {
-					other = x.Y
+				break
+			}
+			return false
+		}
+		var isSrcByte func(v ssa.Value, depth int) bool
+		isSrcByte = func(v ssa.Value, depth int) bool {
+			if depth > 6 {
+				return false
+			}
+			switch x := v.(type) {
+			case *ssa.Lookup:
+				return isSrcText(x.X)
+			case *ssa.Index: // string indexing (go/ssa ≥ 0.2x represents s[i] as Index)
+				return isSrcText(x.X)
+			case *ssa.Convert:
+				return isSrcByte(x.X, depth+1)
+			case *ssa.ChangeType:
+				return isSrcByte(x.X, depth+1)
+			case *ssa.Phi:
+				for _, e := range x.Edges {
+					if !isSrcByte(e, depth+1) {
+						return false
+					}
 				}
-				if other == nil {
-					continue
+				return len(x.Edges) > 0
+			}
+			return false
+		}
+		where := "enc." + it.f.Name()
+		for _, b := range it.f.Blocks {
+			for _, in := range b.Instrs {
+				switch x := in.(type) {
+				case *ssa.BinOp:
+					if x.Op != token.EQL && x.Op != token.NEQ {
+						continue
+					}
+					var other ssa.Value
+					if k, ok := x.Y.(*ssa.Const); ok && k.Value != nil && k.Value.Kind() == constant.Int && k.Int64() == '\\' {
+						other = x.X
+					} else if k, ok := x.X.(*ssa.Const); ok && k.Value != nil && k.Value.Kind() == constant.Int && k.Int64() == '\\' {
+						other = x.Y
+					}
+					if other == nil {
+						continue
+					}
+					n++
+					o := Obligation{Key: fmt.Sprintf("%s escape-introducer test #%d", where, n), Pos: c.pos(x.Pos()), Verdict: OK, Detail: "tests a byte of the source string"}
+					if !isSrcByte(other, 0) {
+						o.Verdict = VIOL
+						o.Detail = "the byte compared with the backslash may be a byte that was just decoded from an escape sequence: `\\5C` decodes to a backslash, which is then taken for the start of another escape and swallows part of the following text (`\\5C\\5C` no longer decodes to two backslashes)"
+					}
+					obs = append(obs, o)
+				case *ssa.Call:
+					callee := x.Call.StaticCallee()
+					if callee == nil {
+						continue
+					}
+					if callee.Name() == "unhex" && len(x.Call.Args) == 1 {
+						n++
+						o := Obligation{Key: fmt.Sprintf("%s hex-digit test #%d", where, n), Pos: c.pos(x.Pos()), Verdict: OK, Detail: "tests a byte of the source string"}
+						if !isSrcByte(x.Call.Args[0], 0) {
+							o.Verdict, o.Detail = VIOL, "the hex-digit test is applied to a value that is not a byte of the source string"
+						}
+						obs = append(obs, o)
+						continue
+					}
+					if callee.Pkg != nil && callee.Pkg.Pkg.Path() == pkgENC && len(callee.Params) == len(x.Call.Args) {
+						for i, a := range x.Call.Args {
+							if isSrcText(a) {
+								work = append(work, item{callee, callee.Params[i]})
+							}
+						}
+					}
 				}
-				n++
-				o := Obligation{Key: fmt.Sprintf("enc.Unescape escape-introducer test #%d", n), Pos: c.pos(x.Pos()), Verdict: OK, Detail: "tests a byte of the source string"}
-				if !isSrcByte(other, 0) {
-					o.Verdict = VIOL
-					o.Detail = "the byte compared with the backslash may be a byte that was just decoded from an escape sequence: `\\5C` decodes to a backslash, which is then taken for the start of another escape and swallows part of the following text (`\\5C\\5C` no longer decodes to two backslashes)"
-				}
-				obs = append(obs, o)
-			case *ssa.Call:
-				callee := x.Call.StaticCallee()
-				if callee == nil || callee.Name() != "unhex" || len(x.Call.Args) != 1 {
-					continue
-				}
-				n++
-				o := Obligation{Key: fmt.Sprintf("enc.Unescape hex-digit test #%d", n), Pos: c.pos(x.Pos()), Verdict: OK, Detail: "tests a byte of the source string"}
-				if !isSrcByte(x.Call.Args[0], 0) {
-					o.Verdict, o.Detail = VIOL, "the hex-digit test is applied to a value that is not a byte of the source string"
-				}
-				obs = append(obs, o)
 			}
 		}
 	}
@@ -1458,7 +1527,20 @@ func ruleENCCLASS(c *Ctx) []Obligation {
 			Detail: "the decoder never decides between an unnamed ID and a name (no strconv parse, no identifier constructor on the token text)"}
 		ast.Inspect(fd.Body, func(nd ast.Node) bool {
 			call, ok := nd.(*ast.CallExpr)
-			if !ok || len(call.Args) == 0 || !isClassifier(calleeOf(info, call)) {
+			if !ok || len(call.Args) == 0 {
+				return true
+			}
+			// a shared helper of the package that takes the (sigil-stripped) text and decides
+			// there: nameOrID(ident)
+			if callee := calleeOf(info, call); callee != nil && callee.Pkg() != nil && callee.Pkg().Path() == pkgASM && !isClassifier(callee) && !isUnquoter(callee) {
+				if hfd := c.funcDecl(callee); hfd != nil && hfd.Body != nil && strings.HasPrefix(o.Detail, "the decoder never") && !unquoted(call.Args[0], call.Pos(), 0) {
+					if verdict, detail, pos := encClassOfHelper(c, hfd, isClassifier, isUnquoter); verdict != "" {
+						o.Verdict, o.Detail, o.Pos = verdict, detail+" (in "+callee.Name()+")", c.pos(pos)
+					}
+				}
+				return true
+			}
+			if !isClassifier(calleeOf(info, call)) {
 				return true
 			}
 			if unquoted(call.Args[0], call.Pos(), 0) {
@@ -2306,4 +2388,70 @@ func ruleSCAFNAME(c *Ctx) []Obligation {
 		})
 	}
 	return obs
+}
+
+// encClassOfHelper applies the ENC-CLASS test inside a helper whose first
+// parameter is the token text: the first classifier call must see that text
+// before any unquoting of it.
+func encClassOfHelper(c *Ctx, fd *ast.FuncDecl, isClassifier, isUnquoter func(*types.Func) bool) (verdict, detail string, pos token.Pos) {
+	info := c.declPkg[fd].TypesInfo
+	type def struct {
+		pos token.Pos
+		rhs ast.Expr
+	}
+	defs := map[types.Object][]def{}
+	ast.Inspect(fd.Body, func(nd ast.Node) bool {
+		if as, ok := nd.(*ast.AssignStmt); ok && len(as.Lhs) == len(as.Rhs) {
+			for i, l := range as.Lhs {
+				if id, ok := l.(*ast.Ident); ok {
+					if obj := info.ObjectOf(id); obj != nil {
+						defs[obj] = append(defs[obj], def{as.Pos(), as.Rhs[i]})
+					}
+				}
+			}
+		}
+		return true
+	})
+	var unq func(e ast.Expr, at token.Pos, depth int) bool
+	unq = func(e ast.Expr, at token.Pos, depth int) bool {
+		found := false
+		ast.Inspect(e, func(m ast.Node) bool {
+			switch m := m.(type) {
+			case *ast.CallExpr:
+				if isUnquoter(calleeOf(info, m)) {
+					found = true
+				}
+			case *ast.Ident:
+				if depth < 4 {
+					var last *def
+					for i := range defs[info.ObjectOf(m)] {
+						d := &defs[info.ObjectOf(m)][i]
+						if d.pos < at && (last == nil || d.pos > last.pos) {
+							last = d
+						}
+					}
+					if last != nil && unq(last.rhs, last.pos, depth+1) {
+						found = true
+					}
+				}
+			}
+			return !found
+		})
+		return found
+	}
+	ast.Inspect(fd.Body, func(nd ast.Node) bool {
+		call, ok := nd.(*ast.CallExpr)
+		if !ok || len(call.Args) == 0 || !isClassifier(calleeOf(info, call)) || verdict != "" {
+			return true
+		}
+		pos = call.Pos()
+		if unq(call.Args[0], call.Pos(), 0) {
+			verdict = VIOL
+			detail = fmt.Sprintf("the ID-or-name decision (%s) is taken on unquoted text: the quoted digit string %%\"1\" — a name — is decoded as the unnamed ID %%1", exprString(call.Fun))
+		} else {
+			verdict, detail = OK, "decided by "+exprString(call.Fun)+" on the raw text; unquoting happens afterwards"
+		}
+		return true
+	})
+	return verdict, detail, pos
 }
